@@ -63,6 +63,24 @@ pub fn playout(fen: Option<&str>, plies: usize, rng: &mut Rng) -> Vec<String> {
     moves
 }
 
+/// The same placement with the colours of all *pawns* exchanged (pieces and side to move kept).  State
+/// that is keyed by less than the whole position (pawn squares without colours, …) confuses the two.
+/// None if the result is not a legal, non-terminal position.
+pub fn pawn_colour_twin(fen: &str) -> Option<String> {
+    let mut f: Vec<String> = fen.split_whitespace().map(|s| s.to_string()).collect();
+    if f.len() < 4 || !(f[0].contains('P') || f[0].contains('p')) {
+        return None;
+    }
+    f[0] = f[0].chars().map(|c| match c { 'P' => 'p', 'p' => 'P', o => o }).collect();
+    f[3] = "-".to_string();
+    let twin = f.join(" ");
+    let g = Game::from_fen(&twin).ok()?;
+    if g.moves().is_empty() || g.board.king_in_check(g.player.other()) {
+        return None;
+    }
+    Some(twin)
+}
+
 pub fn gen_poll_interval(rng: &mut Rng) -> Option<u64> {
     match rng.weighted(&[8, 14, 24, 26, 16, 12]) {
         0 => Some(1),
